@@ -260,6 +260,8 @@ package sqlite
 
 //@ func (*SqliteStoreWorker).readPromises
 //@ props C16 C17 C02 C20
+// every returned record is the row it was scanned from, column by column (C01, C20: what a sweep or a search reports is what is stored)
+//@ site loop 1 backedge assert scanned(rows, record, "ReadPromises")
 //@ nopanic C13
 //@ ghostdb store
 //@ requires cmd != nil
@@ -268,6 +270,8 @@ package sqlite
 
 //@ func (*SqliteStoreWorker).searchPromises
 //@ props C16 C17 C02 C20 C14
+// every returned record is the row it was scanned from, column by column (C01, C20: what a sweep or a search reports is what is stored)
+//@ site loop 3 backedge assert scanned(rows, record, "SearchPromises")
 // result wiring (C14): every scanned row is returned, in scan order; the cursor value is the last row's sort id
 //@ loop 3 invariant rowsReturned == len(records)
 //@ site loop 3 backedge assert lastSortId == record.SortId && rowsReturned == len(records)
@@ -287,6 +291,8 @@ package sqlite
 
 //@ func (*SqliteStoreWorker).readSchedules
 //@ props C16 C17 C02 C20
+// every returned record is the row it was scanned from, column by column (C01, C20: what a sweep or a search reports is what is stored)
+//@ site loop 1 backedge assert scanned(rows, record, "ReadSchedules")
 //@ nopanic C13
 //@ ghostdb store
 //@ requires cmd != nil
@@ -295,6 +301,8 @@ package sqlite
 
 //@ func (*SqliteStoreWorker).searchSchedules
 //@ props C16 C17 C02 C20 C14
+// every returned record is the row it was scanned from, column by column (C01, C20: what a sweep or a search reports is what is stored)
+//@ site loop 2 backedge assert scanned(rows, record, "SearchSchedules")
 // result wiring (C14): every scanned row is returned, in scan order; the cursor value is the last row's sort id
 //@ loop 2 invariant rowsReturned == len(records)
 //@ site loop 2 backedge assert lastSortId == record.SortId && rowsReturned == len(records)
@@ -310,6 +318,8 @@ package sqlite
 
 //@ func (*SqliteStoreWorker).readTasks
 //@ props C16 C17 C02 C20
+// every returned record is the row it was scanned from, column by column (C01, C20: what a sweep or a search reports is what is stored)
+//@ site loop 2 backedge assert scanned(rows, record, "ReadTasks")
 //@ nopanic C13
 //@ ghostdb store
 //@ requires cmd != nil
@@ -319,6 +329,8 @@ package sqlite
 
 //@ func (*SqliteStoreWorker).readEnqueueableTasks
 //@ props C16 C17 C02 C20
+// every returned record is the row it was scanned from, column by column (C01, C20: what a sweep or a search reports is what is stored)
+//@ site loop 1 backedge assert scanned(rows, record, "ReadEnqueueableTasks")
 //@ nopanic C13
 //@ ghostdb store
 //@ requires cmd != nil
